@@ -290,6 +290,14 @@ fn faulted_request(w: &mut World, op: &Op, inj: &Inj, out: &mut RunOut) -> bool 
 }
 
 pub fn exec(plan: &FaultPlan) -> RunOut {
+    // storage-call faults are injected by the wrapper storage
+    crate::world::set_raw_mode(1);
+    let out = exec_wrapped(plan);
+    crate::world::set_raw_mode(0);
+    out
+}
+
+fn exec_wrapped(plan: &FaultPlan) -> RunOut {
     let mut out = RunOut::default();
     crate::world::begin_run(plan.seed, plan.start_us);
     let mut main = match World::new(plan.seed, Backend::Sqlite, plan.entry, plan.page_size, plan.n_clients, plan.cfg, None) {
